@@ -253,3 +253,17 @@ def run(ctx):
         vf.violation(ctx, {"no_longer_checks": [{"kind": k, "detail": d} for k, d in broke],
                            "note": "no concrete failing run was found by the search; the property is no longer shown to hold"},
                      False, what, "-broken")
+
+
+def replay(ctx, path):
+    """Re-run with the seed / tier of the stored case: the operation mix, thread count and
+    GOMAXPROCS of every scenario are reproduced exactly; the interleaving is chosen by the Go
+    scheduler again, so a schedule-dependent failure reappears only with some probability
+    (the stored case holds the full event log / race report that was observed)."""
+    d = json.load(open(path))
+    ctx.seed = int(d.get("seed", ctx.seed))
+    ctx.tier = d.get("tier", ctx.tier)
+    if ctx.tier == "search":
+        ctx.tier = "thorough"
+    run(ctx)
+    return vf.finish(ctx, LEVEL)
